@@ -5,21 +5,7 @@ From BpafModel Require Import Conv.
 From BpafLemmas Require Import Tac EvalEq Find Reach Ledger NoLoss C05Lemmas OkReach OkLaws.
 Import ListNotations.
 
-(* all items / all command names of a level tree *)
-Fixpoint all_items (l : level) : list citem :=
-  match l with
-  | Level items tail =>
-    items ++ match tail with
-             | TCmds cs => all_items_cs cs
-             | _ => []
-             end
-  end
-with all_items_cs (cs : clist) : list citem :=
-  match cs with
-  | CNil => []
-  | CCons _ _ sub rest => all_items sub ++ all_items_cs rest
-  end.
-
+(* all command names of a level tree *)
 Fixpoint all_cmd_names (l : level) : list bytes :=
   match l with
   | Level _ tail => match tail with TCmds cs => all_cmd_names_cs cs | _ => [] end
